@@ -63,6 +63,8 @@ pub struct TableProvider {
     pub cancel: RefCell<CancelPlan>,
     pub gates: Option<Rc<Gates>>,
     pub gate_filter_sort: bool,
+    /// only `get_dependencies` suspends on the gates (the asynchronous operations of the cache family)
+    pub gate_deps_only: bool,
     pub first_fired: Cell<Option<usize>>,
     /// > 0 while the provider's own `sort_candidates` is running (polls made on its behalf are logged `Q`, not `P`)
     pub in_sort: Cell<u32>,
@@ -70,12 +72,15 @@ pub struct TableProvider {
     /// the look-ahead of `sort_candidates` is concurrent (dependencies of all candidates at once, then the candidates of every
     /// package they mention at once) and drops what is outstanding when a request is refused
     pub sort_peeks_join: bool,
+    /// the concurrent look-ahead asks for candidates only: the provider reads the dependencies from its own tables
+    /// (nothing becomes "cheaply available" to the solver)
+    pub sort_peeks_cands_only: bool,
 }
 
 impl TableProvider {
     pub fn new(u: Universe) -> Self {
         TableProvider { u, log: RefCell::new(Vec::new()), polls: Cell::new(0), calls_started: Cell::new(0), raised: Cell::new(false), cancel: RefCell::new(CancelPlan::default()),
-            gates: None, gate_filter_sort: false, first_fired: Cell::new(None), in_sort: Cell::new(0), sort_peeks_deps: false, sort_peeks_join: false }
+            gates: None, gate_filter_sort: false, gate_deps_only: false, first_fired: Cell::new(None), in_sort: Cell::new(0), sort_peeks_deps: false, sort_peeks_join: false, sort_peeks_cands_only: false }
     }
     async fn gate(&self, label: String) {
         if let Some(g) = &self.gates {
@@ -106,6 +111,20 @@ impl Interner for TableProvider {
     }
 }
 
+impl TableProvider {
+    /// the dependencies of a solvable as the provider's tables have them
+    pub fn own_dependencies(&self, solvable: SolvableId) -> Dependencies {
+        match self.u.solvs.get(&solvable.0).map(|s| &s.deps) {
+            Some(Deps::Known { reqs, cons }) => Dependencies::Known(KnownDependencies {
+                requirements: reqs.iter().map(to_requirement).collect(),
+                constrains: cons.iter().map(|&v| VersionSetId(v)).collect(),
+            }),
+            Some(Deps::Unknown(r)) => Dependencies::Unknown(StringId(*r)),
+            None => Dependencies::Known(KnownDependencies::default()),
+        }
+    }
+}
+
 impl DependencyProvider for TableProvider {
     async fn filter_candidates(&self, candidates: &[SolvableId], version_set: VersionSetId, inverse: bool) -> Vec<SolvableId> {
         if self.gate_filter_sort { self.gate(format!("f{}{}", version_set.0, if inverse { "i" } else { "" })).await; }
@@ -117,7 +136,7 @@ impl DependencyProvider for TableProvider {
     async fn get_candidates(&self, name: NameId) -> Option<Candidates> {
         self.log.borrow_mut().push(format!("c{}", name.0));
         self.request_started();
-        self.gate(format!("c{}", name.0)).await;
+        if !self.gate_deps_only { self.gate(format!("c{}", name.0)).await; }
         if self.gates.is_some() { self.log.borrow_mut().push(format!("C{}", name.0)); } // answer obtained
         let p = self.u.pkgs.get(&name.0)?;
         Some(Candidates {
@@ -140,12 +159,14 @@ impl DependencyProvider for TableProvider {
         let solvables_ro: &[SolvableId] = solvables;
         Flagged { f: Box::pin(async move {
             let solvables = solvables_ro;
-        if self.sort_peeks_deps && self.sort_peeks_join {
+        // (a sorter only has something to compare - and to look ahead for - when there are at least two candidates)
+        if self.sort_peeks_deps && self.sort_peeks_join && (!self.sort_peeks_cands_only || solvables.len() >= 2) {
                 // one pipeline per candidate, all pipelines at once: the candidate's dependencies, then the candidates of every
                 // package they mention (so the look-ahead of one candidate polls while the dependencies of another are still
                 // in flight); the first refusal drops everything that is outstanding
                 let pipelines = solvables.iter().map(|s| async move {
-                    let d = solver.get_or_cache_dependencies(*s).await?;
+                    let own;
+                    let d = if self.sort_peeks_cands_only { own = self.own_dependencies(*s); &own } else { solver.get_or_cache_dependencies(*s).await? };
                     let mut names: Vec<NameId> = Vec::new();
                     if let Dependencies::Known(k) = d {
                         for r in &k.requirements {
@@ -169,14 +190,7 @@ impl DependencyProvider for TableProvider {
         self.request_started();
         self.gate(format!("d{}", solvable.0)).await;
         if self.gates.is_some() { self.log.borrow_mut().push(format!("D{}", solvable.0)); } // answer obtained
-        match self.u.solvs.get(&solvable.0).map(|s| &s.deps) {
-            Some(Deps::Known { reqs, cons }) => Dependencies::Known(KnownDependencies {
-                requirements: reqs.iter().map(to_requirement).collect(),
-                constrains: cons.iter().map(|&v| VersionSetId(v)).collect(),
-            }),
-            Some(Deps::Unknown(r)) => Dependencies::Unknown(StringId(*r)),
-            None => Dependencies::Known(KnownDependencies::default()),
-        }
+        self.own_dependencies(solvable)
     }
 
     fn should_cancel_with_value(&self) -> Option<Box<dyn Any>> {
